@@ -161,7 +161,7 @@ def confirm(exes, scn_text, pid, workdir):
     n = 0
     for _ in range(2):
         res = run_scenario_file(exes, p, workdir)
-        if any(has_tag(b, pid) for b in res["mon"]["bad"]) or (pid == "C12" and conf_compare([os.path.join(workdir, "replay.ndjson")])) \
+        if any(has_tag(b, pid) for b in res["mon"]["bad"]) or (pid in ("C12", "C08") and conf_compare([os.path.join(workdir, "replay.ndjson")])) \
                 or (pid == "C20" and hist_compare([os.path.join(workdir, "replay.ndjson")])):
             n += 1
     return n == 2
@@ -219,9 +219,12 @@ def check_property(pid, tier, seed):
             for b in r["mon"]["bad"]:
                 b["scn"] = j["scn"]
                 bads.append(b)
-        if pid == "C12":
+        if pid in ("C12", "C08"):
             bad_sids = {(b["scn"], b["sid"]) for b in bads}
             for cb in conf_compare([j["trace"] for j in batches]):
+                if pid == "C08":
+                    cb["p"] = "C08"
+                    cb["why"][0] = "output or handler arguments depend on the contents of a write-only variable (twin runs differ)"
                 cb["scn"] = cb["trace"].replace(".ndjson", ".scn")
                 cb["ref_scn"] = cb["ref_trace"].replace(".ndjson", ".scn")
                 if (cb["ref_scn"], cb["ref_sid"]) in bad_sids:
@@ -323,7 +326,7 @@ def replay(pid, path):
         exes.pop("noproj", None)
         res = run_scenario_file(exes, path, work)
         mine = [b for b in res["mon"]["bad"] if has_tag(b, pid)]
-        if pid == "C12":
+        if pid in ("C12", "C08"):
             mine += conf_compare([os.path.join(work, "replay.ndjson")])
         if pid == "C20":
             mine += hist_compare([os.path.join(work, "replay.ndjson")])
